@@ -1430,9 +1430,14 @@ class SyncObj(object):
                     len(self.__raftLog) < 2 or \
                     self.__raftLog[0] != data[2] or \
                     self.__raftLog[1] != data[1]:
-                self.__raftLog.clear()
-                self.__raftLog.add(*data[2])
-                self.__raftLog.add(*data[1])
+                if not clearJournal and self.__getEntries(data[2][1], 2) == [data[2], data[1]]:
+                    # The journal still starts before the snapshot (the node was stopped after the dump
+                    # was written but before the journal was trimmed): trim it now and keep the rest.
+                    self.__deleteEntriesTo(data[2][1])
+                else:
+                    self.__raftLog.clear()
+                    self.__raftLog.add(*data[2])
+                    self.__raftLog.add(*data[1])
 
             self.__raftLastApplied = data[1][1]
 
